@@ -552,8 +552,8 @@ void HistSim::endOp(Judge& j, const Op& op, size_t ix) {
     auto& ds = docs_[size_t(j.doc)];
     bool ovfNow = ds.doc->overflowed();
     bool hadFault = lastOpFaults_ > 0;
-    if (hadFault)
-      ds.leaky = true;
+    if (hadFault || ovfNow)
+      ds.leaky = true;  // a failed allocation (injected, or a capacity limit) may strand slots and strings
     relaxed = hadFault || ds.ovf || ovfNow;
     if (opt.mode == "free" || opt.mode == "twin") {
       if (ovfNow)
@@ -566,6 +566,10 @@ void HistSim::endOp(Judge& j, const Op& op, size_t ix) {
       wo.cls = "C05:malformed-after-failure";
       Val e = extract(ds.doc->as<JsonVariantConst>(), wo);
       bool stateAsPredicted = sameValue(e, ds.model);
+      if (!stateAsPredicted && j.floatsFromText && looselyEqual(ds.model, e)) {
+        adoptFloats(ds.model, e);  // numbers came through text: precision is not this check's business
+        stateAsPredicted = true;
+      }
       if (stateAsPredicted) {
         // absorbed, or succeeded with the sticky flag turning a void-converter's result to false
         if (j.hasReturn && j.actual != j.predicted) {
